@@ -504,7 +504,7 @@ func checkCmd(args []string) int {
 		path := filepath.Join(replayDir, fmt.Sprintf("%s-problem-%d.txt", id, i))
 		probe, hit := "", false
 		if i < 6 {
-			probe, hit = probeProblem(st, *repo, pr, id)
+			probe, hit = probeProblem(u, st, *repo, pr, id)
 		}
 		os.WriteFile(path, []byte("obligation could not be generated or decided on this tree (it is generated and discharged on the unchanged tree):\n"+pr+"\n\n---- replay on the real code ----\n"+probe), 0o644)
 		if hit {
